@@ -58,8 +58,9 @@ def random_merge(rng, seqs):
     return out
 
 
-def sched_case(reqs, m, script):
-    return {"kind": "sched", "reqs": reqs, "reloads": m, "script": script}
+def sched_case(reqs, m, script, nbad=0):
+    """m reloads in total, the last nbad of them are given a subnet file that does not exist"""
+    return {"kind": "sched", "reqs": reqs, "reloads": m, "script": script, "bad": list(range(m - nbad, m))}
 
 
 def gen_cases(ctx):
@@ -80,6 +81,8 @@ def gen_cases(ctx):
             cases.append({"kind": "depth", "reqs": [req(v4, v6, e4, e6, tr)]})
     # exhaustive interleavings at the selector scheduling points
     exh = [([DUAL], 1), ([DUAL], 2), ([DUAL, V4], 1), ([V6, V4], 2), ([req(True, True, False, True)], 1), ([req(True, True, True, False), DUAL], 1)]
+    for script in interleavings(thread_actions([DUAL], 2)):      # one reload that fails, one that succeeds
+        cases.append(sched_case([DUAL], 2, script, nbad=1))
     if not quick:
         exh += [([DUAL, DUAL], 1), ([DUAL, DUAL], 2), ([DUAL, V6], 2), ([DUAL, V4, NONE], 1), ([DUAL, V4, V6], 1)]
     for reqs, m in exh:
@@ -93,8 +96,9 @@ def gen_cases(ctx):
             r = rng.choice([DUAL, DUAL, DUAL, V4, V6, NONE, req(True, True, True, False), req(True, True, False, True),
                             req(True, False, True, False), req(False, True, False, True)])
             reqs.append(dict(r))
-        m = rng.choice([1, 1, 2, 2, 0])
-        cases.append(sched_case(reqs, m, random_merge(rng, thread_actions(reqs, m))))
+        m = rng.choice([1, 1, 2, 2, 0, 3])
+        nbad = rng.choice([0, 0, 0, 1]) if m else 0
+        cases.append(sched_case(reqs, m, random_merge(rng, thread_actions(reqs, m)), nbad))
     # unscripted stress
     for k, m, it in ([(4, 2, 300)] if quick else [(4, 2, 2000), (8, 3, 1500), (2, 1, 3000)]):
         cases.append({"kind": "stress", "reqs": [dict(rng.choice([DUAL, DUAL, V4, V6])) for _ in range(k)], "reloads": m,
@@ -119,15 +123,16 @@ def term(c, r):
             return None
         return "(CDepth %s %s %d)" % (greq(c["reqs"][0]), glist(sels, lambda s: "(%s, %d)" % (gbool(s[0] == 1), s[1])), r["final"])
     if c["kind"] == "sched":
-        return "(CSched %s %d %s %s %d %d)" % (
-            glist(c["reqs"], greq), c["reloads"], gbool(r["completed"]), glist(r["reqs"] or [], gobs),
-            sum(1 for x in (r["reloads_done"] or []) if x), max(0, r["final_ver"]))
+        nbad = len(c.get("bad") or [])
+        return "(CSched %s %d %d %s %s %d %d %d)" % (
+            glist(c["reqs"], greq), c["reloads"] - nbad, nbad, gbool(r["completed"]), glist(r["reqs"] or [], gobs),
+            sum(1 for x in (r["reloads_done"] or []) if x), r["reload_errs"], max(0, r["final_ver"]))
     return None
 
 
 def describe(c):
     if c["kind"] == "sched":
-        return "k=%d m=%d script=%s" % (len(c["reqs"]), c["reloads"],
+        return "k=%d m=%d bad=%s script=%s" % (len(c["reqs"]), c["reloads"], c.get("bad") or [],
                                         " ".join("%s%d" % (a["op"], a["i"]) for a in c["script"]))
     return "%s %s" % (c["kind"], c["reqs"])
 
@@ -150,9 +155,10 @@ def oracle(ctx, c, r):
             elif o["v4ver"] >= 0 and o["v6ver"] >= 0 and o["v4ver"] != o["v6ver"]:
                 ctx.fail("mixed/sched", "request %d got its IPv4 phantom from subnet set %d and its IPv6 phantom from set %d (%s)"
                          % (i, o["v4ver"], o["v6ver"], describe(c)), {**c, "observed": r["reqs"]})
-        if not all(r["reloads_done"] or []) or r["reload_errs"]:
-            ctx.fail("reload/sched", "a reload did not complete or failed (%s)" % describe(c), c)
-        if c["reloads"] > 0 and r["final_ver"] == 0:
+        nbad = len(c.get("bad") or [])
+        if not all(r["reloads_done"] or []) or r["reload_errs"] != nbad:
+            ctx.fail("reload/sched", "a reload did not complete, or %d reloads failed where %d have no file (%s)" % (r["reload_errs"], nbad, describe(c)), c)
+        if c["reloads"] - nbad > 0 and r["final_ver"] == 0:
             ctx.fail("reload-lost/sched", "all reloads returned but the old selector is still installed (%s)" % describe(c), c)
     if kind == "stress":
         if r["mixed"]:
@@ -215,7 +221,7 @@ def run(ctx):
     ctx.sample({"case": cases[1], "observed": {k: v for k, v in results[1].items() if k != "dump"}})
     ctx.sample({"case": cases[-1], "observed": {k: v for k, v in results[-1].items() if k != "dump"}})
     ctx.require_kinds(["depth/dual", "depth/single", "depth/none", "sched/k1/m1", "sched/k1/m2", "sched/k2/m1", "sched/k2/m2", "sched/k3/m2", "stress"])
-    mm = ctx.coq_mismatches("lock", HEADER, terms, "chk", shard=400, need_vo=["C13/Run.vo"])
+    mm = ctx.coq_mismatches("lock", HEADER, terms, "chk", shard=400, need_vo=["C13/Run.vo", "C13/Examples.vo"])
     if mm:
         ctx.cov["mismatches"] += len(mm)
         i = tidx[mm[0]]
